@@ -287,6 +287,10 @@ func (f *fixture) creds() []*cred {
 	add(&cred{Name: "notyet-admin-token", Bearer: f.tokens["notyet-admin"].Token, Class: "invalid-token"})
 	add(&cred{Name: "jwt-g1-admin-signed-with-g2-key", Bearer: signJWT(G2.Hmac, G1.Kid, g1, []string{"admin"}), Class: "invalid-token"})
 	add(&cred{Name: "g1-wildcard-login", Basic: true, User: "c17-somebody", Pw: G1.WildPw, Class: "wildcard-login"})
+	// the password of the group's entry for the EMPTY username, presented
+	// under some other (or the empty) username: an ordinary login at best
+	add(&cred{Name: "g1-empty-user-password-other-username", Basic: true, User: "c17-somebody-else", Pw: G1.EmptyPw, Class: "empty-user-password"})
+	add(&cred{Name: "g1-empty-user-password-empty-username", Basic: true, User: "", Pw: G1.EmptyPw, Class: "empty-user-password"})
 	add(&cred{Name: "server-nonadmin-user", Basic: true, User: f.srvUsr.Name, Pw: f.srvUsr.Pw, Class: "ordinary-user"})
 	add(&cred{Name: "g1-ordinary-user", Basic: true, User: G1.Ord.Name, Pw: G1.Ord.Pw, Class: "ordinary-user", OwnGroup: g1, OwnUser: G1.Ord.Name})
 	add(&cred{Name: "g2-ordinary-user", Basic: true, User: G2.Ord.Name, Pw: G2.Ord.Pw, Class: "ordinary-user", OwnGroup: g2, OwnUser: G2.Ord.Name})
